@@ -156,7 +156,13 @@ def run_resolve(comp, seed, tid):
 
 
 def run_binding(ck, pool, tier, seed):
-    # ---- the same solver object used twice: diagnostics are per solve
+    # ---- the same solver object used twice: diagnostics are per solve (design: specs/solvers/SolverObject.tla)
+    from .purity import solver_object_design
+    try:
+        solver_object_design(ck)
+    except tlc.TLCError as e:
+        ck.machinery(str(e)[:2000])
+        return
     ritems = [(c, seed, 71000 + i) for i, c in enumerate(RESOLVE)]
     rres, rerrs = pool.map_grouped("harness.checks.niter", "run_resolve", ritems, key=lambda it: it[0], chunk=1)
     for it, msg, tb in rerrs:
